@@ -542,3 +542,34 @@ func (ex *Exec) rootMentions(sub string) bool {
 	}
 	return false
 }
+
+// mentionsBound: the term contains a quantifier-bound variable (so it cannot be used in a global fact).
+func mentionsBound(t *Term) bool {
+	seen := map[*Term]bool{}
+	var walk func(t *Term) bool
+	walk = func(t *Term) bool {
+		if t == nil || seen[t] {
+			return false
+		}
+		seen[t] = true
+		if t.op == "bound" {
+			return true
+		}
+		for _, a := range t.args {
+			if walk(a) {
+				return true
+			}
+		}
+		return false
+	}
+	return walk(t)
+}
+
+// loadedInContract: a value a contract expression reads through a pointer has its Go type's shape (lengths are
+// not negative, integers are in range) - the fact the executed code gets whenever it loads the same value.
+func (ctx *EvalCtx) loadedInContract(v *Term, t types.Type) *Term {
+	if !mentionsBound(v) {
+		ctx.ex.assumes = append(ctx.ex.assumes, ctx.ex.tm.WellTyped(v, t, 1))
+	}
+	return v
+}
